@@ -232,6 +232,7 @@ func NewUpstream(addr string, opt Opt) (_ Upstream, err error) {
 
 		var t http.RoundTripper
 		var addonCloser io.Closer
+		var h3Socket io.Closer // socket of the quic transport, the transport will not close it
 		if opt.EnableHTTP3 {
 			if addrURL.Scheme == "http" {
 				return nil, errors.New("invalid scheme http in h3 upstream")
@@ -244,6 +245,7 @@ func NewUpstream(addr string, opt Opt) (_ Upstream, err error) {
 			quicTransport := &quic.Transport{
 				Conn: conn,
 			}
+			h3Socket = conn
 			defer closeIfFuncErr(quicTransport)
 
 			quicConfig := newDefaultClientQuicConfig()
@@ -295,6 +297,9 @@ func NewUpstream(addr string, opt Opt) (_ Upstream, err error) {
 		u, err := transport.NewDoHTransport(opt)
 		if err != nil {
 			return nil, fmt.Errorf("failed to create doh upstream, %w", err)
+		}
+		if h3Socket != nil {
+			return &upstreamWithClosers{Upstream: u, cs: []io.Closer{h3Socket}}, nil
 		}
 		if t1, ok := t.(*http.Transport); ok {
 			// Don't leave keep-alive connections open after Close.
